@@ -26,8 +26,19 @@
 (*              forms and derived-dimension atoms, x coefficient x value     *)
 (*              class x call form: consistent tuples must be accepted and    *)
 (*              usable, inconsistent ones rejected                           *)
+(*   "values"   every table system x atoms (compound alphabet, every atom of  *)
+(*              an electromagnetic dimension, prefixed EM atoms, atoms with  *)
+(*              a zero point) x value-level entry point x VALUE CLASS of the *)
+(*              data (narrow float, integer, complex, narrow complex)        *)
+(*   "offset"   user-defined systems whose temperature base unit has a zero  *)
+(*              point (degC, degF, optionally prefixed) x every atom of      *)
+(*              temperature dimension (+ prefixed, powers, compounds) and    *)
+(*              the user probes x entry point; value class rotates           *)
+(* Entry points "in_base_mod", "convert_mod", "gbe_mod": the quantity lives  *)
+(* in a registry of its own in which the mass / length / time / temperature  *)
+(* symbols were redefined (modify); the system does not.                     *)
 EXTENDS UnitSystem
-CONSTANTS Family, PrefixSet, Variants, CompStride, NCand, KiloPrefix, DeclStride
+CONSTANTS Family, PrefixSet, Variants, CompStride, NCand, KiloPrefix, DeclStride, VCSet
 \* value classes of a base-unit argument, call forms, (mass, length, time) coefficient tuples of the scaled family
 Styles == <<"str", "unitobj", "quantity", "alias">>
 Forms == <<"kw", "pos">>
@@ -39,7 +50,8 @@ Init == c = <<>>
 IsSys(i) == i \in DOMAIN Systems
 RegOk(S, x) == \A t \in x : Atoms[t[2]].reg = 0 \/ S.reg = 1
 VarOk(S, v) == /\ (v \in {"in_sys", "convert_sys", "gbe_sys"} => S.short # "")
-               /\ (v \in {"default", "default_conv"} => S.reg = 0)
+               /\ (v \in {"default", "default_conv", "in_base_mod", "convert_mod", "gbe_mod"} => S.reg = 0)
+UnitLevel == {"gbe", "gbe_sys", "gbe_mod"}
 
 AtomUnits == {{<<0, a, 12>>} : a \in 1..NAtoms}
 PrefUnits == {{<<p, a, 12>>} : p \in PrefixSet, a \in {b \in 1..NAtoms : Atoms[b].pfx}}
@@ -67,8 +79,9 @@ UserBases == {<<m, l, t, th, Defaults[5], cu, NoUnit, Defaults[8], Defaults[9]>>
                 m \in SlotCands2(1), l \in SlotCands2(2), t \in SlotCands(3), th \in {<<0, a>> : a \in FirstN(SlotAtoms(4), 2)}, cu \in {Defaults[6], NoUnit}}
 UserProbes == {{<<0, a, 12>>} : a \in CompAtoms} \cup {{<<KiloPrefix, a, 12>>} : a \in {EMTab[i].from : i \in DOMAIN EMTab}}
 
-Case(i, spec, x, v) == [sys |-> i, spec |-> spec, x |-> x, var |-> v,
-                        route |-> Route(spec, x), exp |-> Target(spec, x)]
+CaseV(i, spec, x, v, vc) == [sys |-> i, spec |-> spec, x |-> x, var |-> v, vc |-> vc,
+                             route |-> Route(spec, x), exp |-> Target(spec, x)]
+Case(i, spec, x, v) == CaseV(i, spec, x, v, "f64")
 Ones == [i \in 1..NDim |-> ROne]
 MkSpec(b, bc, ds, st, fm, rg) == [base |-> b, bcoef |-> bc, decl |-> ds, reg |-> rg, coef |-> FALSE, short |-> "", style |-> st, form |-> fm]
 Pick(seq, n) == seq[(n % Len(seq)) + 1]
@@ -102,6 +115,28 @@ ValStyleOk(st, cf, rg, pa) == /\ (cf # ROne => st \in {"quantity", "str"})
                               /\ (st = "alias" => rg = 0)
                               /\ (Atoms[pa[2]].reg = 1 => rg = 1)
 
+\* ---- value classes of the data ----
+EMFrom == {EMTab[i].from : i \in DOMAIN EMTab}
+EMDimAtoms == {a \in 1..NAtoms : Atoms[a].reg = 0 /\ Atoms[a].dim \in EMDims}
+OffAtoms == {a \in 1..NAtoms : Atoms[a].reg = 0 /\ Atoms[a].off}
+ValueUnits == {{<<0, a, 12>>} : a \in CompAtoms \cup EMDimAtoms \cup OffAtoms}
+              \cup {{<<p, a, 12>>} : p \in PrefixSet, a \in {b \in EMFrom : Atoms[b].pfx}}
+
+\* ---- temperature base units with a zero point ----
+TempAtoms == {a \in 1..NAtoms : Atoms[a].reg = 0 /\ Atoms[a].dim = DBase(4)}
+OffTemps == {a \in TempAtoms : Atoms[a].off}
+First(i) == CHOOSE pa \in SlotCands(i) : pa[1] = 0
+OffsetBases == {<<First(1), l, First(3), th, Defaults[5], cu, NoUnit, Defaults[8], Defaults[9]>> :
+                  l \in SlotCands(2), th \in {<<0, a>> : a \in OffTemps} \cup {<<KiloPrefix, a>> : a \in {b \in OffTemps : Atoms[b].pfx}},
+                  cu \in {Defaults[6], NoUnit}}
+OffsetProbes == {{<<0, a, 12>>} : a \in TempAtoms}
+                \cup {{<<p, a, 12>>} : p \in PrefixSet, a \in {b \in TempAtoms : Atoms[b].pfx}}
+                \cup {{<<0, a, e>>} : a \in TempAtoms, e \in {24, -12, 6}}
+                \cup {x \in {{<<0, a, e1>>, <<0, b, e2>>} : a \in TempAtoms, b \in BaseFirst, e1 \in {12, -12}, e2 \in {12, -12}} : CompOk(x)}
+                \cup UserProbes
+OffsetVars == {"in_base", "in_base_arr", "convert_to_base", "gbe", "to_gbe", "sysobj"}
+OffsetVCs == <<"f64", "c128", "f64", "f32", "i64", "f64", "c64">>
+
 NoSpec == [base |-> <<>>, decl |-> <<>>, reg |-> 0, coef |-> FALSE]
 
 Next ==
@@ -128,6 +163,15 @@ Next ==
                  bc == [Ones EXCEPT ![1] = ct[1], ![2] = ct[2], ![3] = ct[3], ![4] = ct[1], ![6] = IF b[CUR] # NoUnit THEN ct[3] ELSE ROne]
                  spec == MkSpec(b, bc, ds, Pick(ScaledStyles, n), Pick(Forms, n \div 3), 0) IN
              RegOk(spec, x) /\ VarOk(spec, v) /\ c' = Case(0, spec, x, v)
+     \/ /\ Family = "values"
+        /\ \E i \in DOMAIN Systems, x \in ValueUnits, v \in Variants \ UnitLevel, vc \in VCSet :
+             RegOk(Systems[i], x) /\ VarOk(Systems[i], v) /\ c' = CaseV(i, Systems[i], x, v, vc)
+     \/ /\ Family = "offset"
+        /\ \E b \in OffsetBases, x \in OffsetProbes, v \in OffsetVars :
+             LET n == SumBase(b) + ProbeNo(x) + Cardinality(x)
+                 spec == MkSpec(b, Ones, <<>>, Pick(Styles, n), Pick(Forms, n \div Len(Styles)), 0)
+                 vc == IF v \in UnitLevel THEN "f64" ELSE Pick(OffsetVCs, n + Len(v)) IN
+             RegOk(spec, x) /\ c' = CaseV(0, spec, x, v, vc)
      \/ /\ Family = "validate"
         /\ \E rg \in {0, 1}, i \in RealSlots, w \in WrongCands, cf \in {ROne, <<2, 1>>}, st \in {Styles[j] : j \in DOMAIN Styles}, fm \in {Forms[j] : j \in DOMAIN Forms} :
              LET b == [GoodBase(rg) EXCEPT ![i] = w]
@@ -160,6 +204,6 @@ Export == c # <<>> =>
                  style |-> IF c.sys = 0 THEN c.spec.style ELSE "",
                  form |-> IF c.sys = 0 THEN c.spec.form ELSE "",
                  reg |-> c.spec.reg,
-                 x |-> c.x, var |-> c.var, route |-> c.route,
+                 x |-> c.x, var |-> c.var, vc |-> c.vc, route |-> c.route,
                  model |-> ModelClauses(c.spec, c.x)]))
 =============================================================================
